@@ -75,6 +75,16 @@ def strat_theta_large(tier):
                      gen.model_convection(), mesh, _linear_nums(), gen.prof_fourier(gen.f(-1, 1), gen.f(0.1, 1)), st.sampled_from(im), st.one_of(gen.logf(-1, 2), gen.f(4, 40)), st.integers(1, 2))
 
 
+def strat_theta_fragile(tier):
+    """the corner in which defect D19 lived: flow towards decreasing indices, 4-point upwind-biased schemes, theta x CFL of order 2..30, a few hundred cells
+    (LU with partial pivoting loses accuracy exponentially in the number of cells there; the statement is about the solution of the system, whatever the solver)"""
+    _ex, im = cases.integrator_names()
+    num = st.one_of(st.sampled_from([dict(name="extrapol3"), dict(name="quick"), dict(name="fromm")]), st.builds(lambda k: dict(name="extrapolk", k=k), gen.f(0.0, 1.0)))
+    return st.builds(lambda a, n, L, nm, fld, integ, cfl, ns: dict(model=dict(name="convection", a=-a), mesh=dict(kind="uni", n=n, length=L, x0=0.0), num=nm, field=fld, integ=integ, cfl=cfl, nsteps=ns, local=False),
+                     gen.logf(-1, 1), st.sampled_from([100, 130, 150, 170, 190, 199, 200, 250, 400, 700]), gen.logf(-1, 1), num, gen.prof_fourier(gen.f(-1, 1), gen.f(0.1, 1)), st.sampled_from(im),
+                     gen.logf(0.3, 1.6), st.integers(1, 2))
+
+
 def check_theta(case):
     md, model, mesh, disc, n, q0, A, dx = _setup(case)
     name = case["integ"]
@@ -287,6 +297,7 @@ def _judge_jacobian(solver, P, field, qsc, neq, n, case, what):
 SUBCHECKS = [
     SubCheck("theta_and_gear_steps", check_theta, strategy=strat_theta, examples={"quick": 600, "thorough": 2500}, shards={"quick": 6, "thorough": 16}),
     SubCheck("theta_and_gear_steps_large", check_theta, strategy=strat_theta_large, examples={"quick": 3, "thorough": 8}, shards={"quick": 4, "thorough": 8}),
+    SubCheck("theta_and_gear_steps_fragile", check_theta, strategy=strat_theta_fragile, examples={"quick": 16, "thorough": 60}, shards={"quick": 4, "thorough": 8}),
     SubCheck("no_growth", check_growth, strategy=strat_growth, examples={"quick": 500, "thorough": 2000}, shards={"quick": 2, "thorough": 8}),
     SubCheck("temporal_order", check_order, strategy=strat_order, examples={"quick": 100, "thorough": 500}, shards={"quick": 3, "thorough": 8}),
     SubCheck("jacobian", check_jac, strategy=strat_jac, examples={"quick": 250, "thorough": 1000}, shards={"quick": 5, "thorough": 16}),
